@@ -45,6 +45,10 @@ def norm(n):
     n = n.replace(' ', '')
     if n.startswith('<'):
         return n
+    # an inherent impl outside the module that defines the type: rustc names its methods `wgsl::<impl MatrixVectorTypes>::vector_type`, the
+    # syntactic side `wgsl::MatrixVectorTypes::vector_type`
+    import re
+    n = re.sub(r"<impl([A-Za-z_][\w:]*?)(<[^>]*>)?>", lambda m_: m_.group(1).split('::')[-1], n)
     out, depth = [], 0
     for ch in n:
         if ch == '<':
@@ -61,7 +65,7 @@ def norm(n):
 
 def compare():
     ga, gb, ogp, mir = graphs()
-    ea = {(norm(a), norm(b)) for a, bs in ga.items() for b in bs if not a.startswith('<') and not b.startswith('<') and '::<' not in b}
+    ea = {(norm(a), norm(b)) for a, bs in ga.items() for b in bs if not a.startswith('<') and not b.startswith('<') and '::<' not in b and '::<' not in a}
     eb = {(norm(a), norm(b)) for a, bs in gb.items() for b in bs if not a.startswith('<') and not b.startswith('<')}
     only_a = sorted(ea - eb)
     only_b = sorted(eb - ea)
